@@ -579,7 +579,8 @@ def hier_fit(ctx, normalize, min_points_given):
     def on_interp(I):
         pass
 
-    loops = {0: LoopSpec(inv_outer, label="split-search", fresh={"clusters": fresh_clusters}),
+    loops = {0: LoopSpec(inv_outer, label="split-search", fresh={"clusters": fresh_clusters},
+                         variant=(lambda v: ("int", info["maxit"] - to_z3(v.state.env["iteration"], "int"))) if ctx.prop == "C18" else None),
              1: LoopSpec(inv_inner, label="candidates", fresh={"best_split": fresh_split, "best_parent_idx": fresh_optint("best_parent_idx"),
                                                                 "best_bic_threshold": lambda st: fresh_scalar("real", "thr")}),
              2: LoopSpec(inv_label, label="labelling", fresh={"cluster_centers": ("list", "array", "real", None),
